@@ -44,6 +44,7 @@ type Frame struct {
 	iterStart map[int]*State
 	iterEnv  map[int]map[ssa.Value]Val
 	iterPhis map[int]map[ssa.Value]Val
+	autoLoops map[string]*LoopContract
 }
 
 func (f *Frame) Clone() *Frame {
@@ -383,9 +384,41 @@ func (vc *VC) jump(fr *Frame, st *State, from, to *ssa.BasicBlock) []Outcome {
 	}
 	isBack := to.Dominates(from)
 	li := vc.eng.loopInfo(fr.fn, to)
+	if vc.dry > 0 && vc.houdini != nil && vc.houdini.header == to && vc.houdini.fn == fr.fn && isBack {
+		for i, phi := range phis {
+			fr.env[phi] = phiVals[i]
+		}
+		vc.houdini.onBack(fr, st)
+		return nil
+	}
+	if vc.dry > 0 && isBack && li != nil && fr.loopIn[to] && vc.autoBusy {
+		return nil // dry run of a loop body (while an automatic contract is being found) ends at its back edge
+	}
 	var lc *LoopContract
 	if li != nil && fr.contract != nil {
 		lc = fr.contract.Loops[li.Ordinal]
+	}
+	if li != nil && lc == nil {
+		// a loop without a contract: try an automatically found one (autoinv.go); cached per frame and loop
+		key := fmt.Sprintf("%p|%d", fr.fn, li.Ordinal)
+		if fr.autoLoops == nil {
+			fr.autoLoops = map[string]*LoopContract{}
+		}
+		if c, ok := fr.autoLoops[key]; ok {
+			lc = c
+		} else if c, ok := fr.autoLoops[key+"|dry"]; ok && vc.dry > 0 {
+			lc = c
+		} else if !isBack {
+			for i, phi := range phis {
+				fr.env[phi] = phiVals[i]
+			}
+			lc = vc.autoLoopContract(fr, st, li, to, phis, phiVals)
+			if vc.dry == 0 || lc == nil {
+				fr.autoLoops[key] = lc
+			} else {
+				fr.autoLoops[key+"|dry"] = lc
+			}
+		}
 	}
 	if li != nil && lc != nil {
 		for i, phi := range phis {
